@@ -90,6 +90,14 @@ def mk_dt(src, zone, wall, fold=0):
     return naive.replace(tzinfo=zoneinfo.ZoneInfo(zone))
 
 
+class _Stamp(datetime):
+    """what pandas.Timestamp, pendulum.DateTime or a user class are to the library: a datetime by isinstance, not by type"""
+
+
+def as_subclass(dt):
+    return _Stamp(dt.year, dt.month, dt.day, dt.hour, dt.minute, dt.second, dt.microsecond, tzinfo=dt.tzinfo, fold=dt.fold)
+
+
 def provider_offset(provider, zone, naive):
     if provider == "pytz":
         return pytz.timezone(zone).localize(naive).utcoffset()
@@ -113,6 +121,13 @@ def judge(case):
     naive = datetime(*wall)
     dt = mk_dt(src, zone, wall, case.get("fold", 0))   # fold=1: the second occurrence of a repeated wall time (PEP 495)
     is_utc = zone == "UTC"
+    if case.get("sub"):
+        dt = as_subclass(dt)
+    twin = None
+    if case.get("via") and case.get("twin_zone"):
+        z2 = case["twin_zone"]
+        tz2 = pytz.timezone(z2) if src == "pytz" else dateutil.tz.gettz(z2) if src == "dateutil" else zoneinfo.ZoneInfo(z2)
+        twin = dt.astimezone(tz2)
     if case.get("twin_zone"):
         # history: the same instant, expressed in another zone (the two date-times compare and hash equal), was written and
         # read in this process just before
@@ -148,7 +163,19 @@ def judge(case):
         name = case.get("name")
         if shape == "single":
             comp = Todo() if name == "DUE" else Event()
-            comp.add(name, dt)
+            via = case.get("via", "add")
+            if via == "attr" and name in ("DTSTART", "DTEND", "DUE"):
+                # the attribute setters, on a component that already holds the same instant expressed in another zone
+                if twin is not None:
+                    setattr(comp, name, twin)
+                setattr(comp, name, dt)
+            elif via == "replace":
+                if twin is not None:
+                    comp.add(name, twin)
+                    del comp[name]
+                comp.add(name, dt)
+            else:
+                comp.add(name, dt)
             values = [naive]
         elif shape == "list":
             comp = Event()
@@ -251,6 +278,8 @@ def judge_utc_prop(case, dt):
     else:
         attr = how[4:]
         comp = Alarm() if attr == "ACKNOWLEDGED" else Event()
+        if case.get("via") and case.get("twin_zone"):
+            setattr(comp, attr, dt.astimezone(zoneinfo.ZoneInfo(case["twin_zone"])))
         setattr(comp, attr, dt)
         name = attr.replace("_", "-")
     raw = comp.to_ical()
@@ -301,6 +330,10 @@ def info(case):
         classes.append("fold=1")
     if case.get("twin_zone"):
         classes.append("history:same-instant-in-another-zone")
+        if case.get("via"):
+            classes.append("history:property-held-the-twin-before/" + case["via"])
+    if case.get("sub"):
+        classes.append("datetime-subclass" + ("/fold=1" if case.get("fold") else ""))
     if zone != "UTC":
         if near_transition(zone, case["wall"]):
             classes.append("near-transition")
@@ -342,6 +375,10 @@ def cases(draw):
     case = {"provider": provider, "src": src, "zone": zone, "shape": shape, "wall": draw(walls_for(zone)), "fold": draw(st.sampled_from([0, 0, 1]))}
     if draw(st.integers(0, 3)) == 0:
         case["twin_zone"] = draw(st.sampled_from(["UTC", "Europe/Berlin", "America/New_York", "Asia/Kolkata", "Etc/GMT+5", "Australia/Lord_Howe"]))
+    if draw(st.integers(0, 3)) == 0:
+        case["sub"] = True
+    if shape in ("single", "utc-prop") and draw(st.booleans()):
+        case["via"] = draw(st.sampled_from(["attr", "replace"]))
     if shape == "single":
         case["name"] = draw(st.sampled_from(["DTSTART", "DTEND", "DUE", "RECURRENCE-ID"]))
     elif shape == "list":
